@@ -3,7 +3,8 @@
 TLC enumerates the matrix (spec/NegotiateDefs.tla: requested version x transport x HTTP options x advertised
 subset x discover availability), evaluates the design (Holds(c, Expected(c)); failures are *leads*), and exports
 the cells. The Go harness connects a real mcp.Client to a real mcp.Server for every cell (in-memory, io pipes,
-SSE handler, streamable HTTP handler stateful/stateless; HTTP through an in-process RoundTripper, every scenario
+SSE handler, streamable HTTP handler stateful / stateful without session ids / stateless, optionally after an earlier
+connection to the same Server through a second streamable endpoint; HTTP through an in-process RoundTripper, every scenario
 in a testing/synctest bubble), then lists and calls tools. The TLA+ monitor NegotiateMon judges the recorded
 outcomes clause by clause (verdict) and compares them with Expected (drift).
 """
@@ -25,8 +26,10 @@ def adv_code(c):
 def cell_of(e):
     c = e["c"]
     tr = c["tr"]
-    if tr in ("stateful", "stateless"):
+    if tr in ("stateful", "statefulnosid", "stateless"):
         tr += ("+json" if c["json"] else "") + ("+store" if c["store"] else "")
+    if c.get("prior", "none") != "none":
+        tr += "+prior=" + c["prior"]
     if c["disc"] != "native":
         tr += "+disc=" + c["disc"]
     return "cell=%s|%s|%s" % (c["req"], tr, adv_code(c))
@@ -44,11 +47,13 @@ def sig_of(inv, e):
     trc = "wrapped" if c["wrap"] else c["tr"]
     if c["disc"] != "native":
         trc += "+disc=" + c["disc"]
+    if c.get("prior", "none") != "none":
+        trc += "+prior=" + c["prior"]
     ver = o["version"]
     if inv in ("Sound", "NoModernOverLegacyTransport"):
         if ver not in V:
             what = "unknown-version"
-        elif ver in MODERN and c["tr"] in ("sse", "stateful"):
+        elif ver in MODERN and c["tr"] in ("sse", "stateful", "statefulnosid"):
             what = "modern-on-legacy-transport"
         elif ver not in c["adv"]:
             what = "not-advertised(%s)" % ("modern" if ver in MODERN else "legacy")
@@ -82,6 +87,9 @@ def run(tier, seed, replay):
         "far above 2026-07-28); 'discovery unavailable' is simulated by a server receiving middleware answering "
         "server/discover with -32601 or -32022(legacy list)",
         "client and server run the same SDK build, so ClientSupported = the SDK's version list",
+        "shared-server cells: one Server behind two streamable handlers; a default client connects, lists and closes on "
+        "the other endpoint first, the judged connection is the second one (both orders); 'statefulnosid' = stateful "
+        "handler whose ServerOptions.GetSessionID returns \"\"",
     ]
     out = vlib.outdir(PID)
     wd = vlib.scratch("tlc-")
@@ -150,6 +158,8 @@ def run(tier, seed, replay):
     v.cov["by_transport"] = {}
     for r in rows:
         k = "wrapped-" + r["c"]["tr"] if r["c"]["wrap"] else r["c"]["tr"]
+        if r["c"].get("prior", "none") != "none":
+            k += "+prior=" + r["c"]["prior"]
         v.cov["by_transport"][k] = v.cov["by_transport"].get(k, 0) + 1
     v.cov["http_route"] = "in-process RoundTripper + testing/synctest (no httptest server)"
     for r in rows[:: max(1, len(rows) // 6)][:6]:
